@@ -57,6 +57,42 @@ CHECKS = {
                         "time constants are limited so that 10 of them fit in 40k (quick) / 400k (thorough) samples; 4 s at 192 kHz is therefore not simulated",
                         "Agc step sizes 0.002..0.2; settling bound derived from the loop contraction |1-2*step| per sample"],
     },
+    "C12": {
+        "batches": [("C12", "asan", 4, 12000, 600000)],
+        "rule": ("one evaluation = one simulated history of one adaptive filter (LMS / NLMS / RLS, real or complex, length 2..64, parameters over the stable "
+                 "range, unknown noise-free FIR system no longer than the filter, white input): 1-10 events {frame(n), n single-sample frames, lock, unlock} "
+                 "followed by a settling phase whose length is the liveness bound computed from the parameters. Non-trivial: >= 1 lock toggle strictly "
+                 "inside the frame sequence; distinct by (algorithm, type, event pattern)."),
+        "assumptions": ["complex data: either conjugation convention (sum c*x or sum conj(c)*x) is accepted, but one per run, and the same one for the convergence target",
+                        "convergence bounds: NLMS 5*14*L/(mu(2-mu))+200 samples (leak 1); RLS 2x the first n with (lambda^n/delta)/R_n < 3e-4 plus 10 L; runs "
+                        "whose bound exceeds the tier's simulated-time cap get a short settling phase and no liveness verdict (counted as convergence_not_applicable)",
+                        "LMS (un-normalised) convergence is not claimed by the property and not checked",
+                        "real RLS, L <= 8, <= 200 unlocked samples: long-double normal equations are the reference for the least-squares clause"],
+    },
+    "C18": {
+        "batches": [("C18", "asan", 4, 4000, 300000)],
+        "rule": ("one evaluation = one scenario: a preamble (Zadoff-Chu, PN +-1 or chirp, length 16..512, amplitude over 60 dB, optional noise >= 30 dB below it) "
+                 "arrives so that its last sample falls on a seeded stream index (every residue modulo frame_len(), biased to the first/last sample of a frame and to "
+                 "preambles straddling a frame boundary); the transport delivers 1-4 frames per call; 15 % of the streams carry no preamble. A scenario is judged "
+                 "only if an independent long-double evaluation of the documented score gives the true peak >= 1.1 x threshold and every other score <= 0.9 x "
+                 "threshold (others are discarded and counted). Distinct by (preamble kind, length/8, residue of the last sample modulo the frame length, straddle, "
+                 "multi-frame call, noise)."),
+        "assumptions": ["score reference uses rms with 1/n; the reported score is accepted within 5 % of it (the n vs n-1 choice inside rms belongs to C17)",
+                        "one preamble per stream (the property covers one); checking stops at the first detection",
+                        "finddelay / gccphat / delayseq / peakloc are pure functions of their arguments and are NOT decided by this check"],
+    },
+    "C19": {
+        "batches": [("C19", "asan", 4, 6000, 400000), ("C19", "tsan", 4, 2000, 100000)],
+        "rule": ("one evaluation = one simulated run of 1-4 (thorough: 8) threads, each executing a prefix of generator calls (rand / randn / randi in every "
+                 "overload incl. single-value and negative ranges, awgn real/complex), rng(s), and a suffix, interleaved by the scheduler at basic-block edges "
+                 "(every thread is the other threads' disturbance: they seed and draw between any two of its draws). Non-trivial: >= 2 threads or >= 3 ops; "
+                 "distinct by the sequence of (thread, op kind, first argument)."),
+        "assumptions": ["reference: the same suffix after rng(s) in a fresh OS thread, and again after a different generated prefix; exact (bitwise) equality",
+                        "tsan flavour: the scheduler hands the token over with raw futex words TSan cannot see, so any unsynchronised sharing of generator state "
+                        "between threads is reported independent of timing",
+                        "awgn power calibration and snr/sinad/thd accuracy are statistical / numeric properties and are NOT decided by this check"],
+        "extra_stubs": [],
+    },
 }
 
 
@@ -92,7 +128,7 @@ def _merge_ctr(dst, src, prefix=""):
         dst[prefix + k] = dst.get(prefix + k, 0) + v
 
 
-def handle_violation(pid, rec, exe, engine, tier, log):
+def handle_violation(pid, rec, exe, engine, tier, log, shrink=True):
     """Gate, minimise, write replay, confirm. Returns dict(vclass, replay, detail) or raises SystemExit(2)."""
     plan = runner.gen_plan(exe, engine, rec.seed, tier)
     if not plan.startswith("engine "):
@@ -108,10 +144,12 @@ def handle_violation(pid, rec, exe, engine, tier, log):
         print("INFRA-ERROR nondeterministic or non-reproducible violation seed=%d batch=%s replays=%s" % (rec.seed, (rec.verdict, rec.vclass, rec.digest), obs),
               flush=True)
         raise SystemExit(2)
-    sh = minimise.Shrinker(exe, plan, rec.vclass)
-    small = sh.run(pinned_sched=rec.sched if rec.nthr > 1 else None)
-    if not sh.fails(small):
-        small = plan   # should not happen; fall back to the unshrunk plan
+    sh = minimise.Shrinker(exe, plan, rec.vclass, max_execs=400 if shrink else 0)
+    small = sh.run(pinned_sched=rec.sched if rec.nthr > 1 else None) if shrink else plan
+    if shrink:
+        sh.max_execs += 1
+        if not sh.fails(small):
+            small = plan   # should not happen; fall back to the unshrunk plan
     os.makedirs(REPLAYS, exist_ok=True)
     safe = re.sub(r"[^A-Za-z0-9_.-]+", "_", rec.vclass)[:80]
     path = os.path.join(REPLAYS, "%s-%s-%d.plan" % (pid, safe, rec.seed))
@@ -195,8 +233,8 @@ def run_check(pid, tier, seed, nworkers=None, runs_override=None):
     foreign = [(c, r) for c, r in by_class.items() if not in_domain(pid, c)]
     for c, r in foreign:
         print("NOTE: %s run seed=%d ended in a C05-class event (%s); not a %s verdict, see check C05" % (pid, r.seed, c, pid), flush=True)
-    for vclass, r in classes[:12]:
-        info = handle_violation(pid, r, r.exe, r.engine, tier, log)
+    for ci, (vclass, r) in enumerate(classes[:12]):
+        info = handle_violation(pid, r, r.exe, r.engine, tier, log, shrink=(ci < 4))
         if vclass in known_sigs:
             known_hit.append((vclass, known_sigs[vclass], info))
         else:
